@@ -68,26 +68,26 @@ def dfs_jobs(tier):
     """bounded DFS by the driver itself (independent of UnionFindImpl): D<preemption bound>:<max executions>.
     quick:    4 set-ups x all unordered pairs of 8 selected ops, <= 2 preemptions; 4 set-ups x 5 core pairs exhaustively (cap 40000)
     thorough: 22 canonical set-ups x all unordered pairs of the 16 ops (a<b), <= 2 preemptions; 4 set-ups x 36 pairs exhaustively
-              (cap 150000); 4 set-ups x multisets of 3 of the 8 selected ops on 3 threads, <= 1 preemption; two-operation programs"""
+              (cap 20000); 4 set-ups x multisets of 3 of the 8 selected ops on 3 threads, <= 1 preemption; two-operation programs"""
     jobs = []
     if tier == "quick":
         for s in RSET:
             for o1, o2 in itertools.combinations_with_replacement(ROPS, 2):
                 jobs.append(job_line(s, [[o1], [o2]], "D2:3000"))
             for o1, o2 in CORE:
-                jobs.append(job_line(s, [[o1], [o2]], "D99:40000"))
+                jobs.append(job_line(s, [[o1], [o2]], "D99:25000"))
     else:
         for s in canonical_setups():
             for o1, o2 in itertools.combinations_with_replacement(ops_lt(), 2):
-                jobs.append(job_line(s, [[o1], [o2]], "D2:3000"))
+                jobs.append(job_line(s, [[o1], [o2]], "D2:1000"))
         for s in RSET:
             for o1, o2 in itertools.combinations_with_replacement(ROPS, 2):
-                jobs.append(job_line(s, [[o1], [o2]], "D99:150000"))
+                jobs.append(job_line(s, [[o1], [o2]], "D99:20000"))
             for o in itertools.combinations_with_replacement(ROPS, 3):
-                jobs.append(job_line(s, [[x] for x in o], "D1:3000"))
+                jobs.append(job_line(s, [[x] for x in o], "D1:1000"))
             for o1, o2 in CORE:
                 for obs in ([("f", 2, 2)], [("s", 2, 3)], [("f", 3, 3)]):
-                    jobs.append(job_line(s, [[o1] + obs, [o2] + obs], "D2:20000"))
+                    jobs.append(job_line(s, [[o1] + obs, [o2] + obs], "D2:5000"))
     return jobs
 
 def random_jobs(rng, count):
@@ -134,7 +134,7 @@ def _run_slice(drv, jobs, base):
     execs = []
     start = 0
     while start < len(jobs):
-        p = subprocess.run([drv], input="\n".join(jobs[start:]) + "\n", capture_output=True, text=True, timeout=3000)
+        p = subprocess.run([drv], input="\n".join(jobs[start:]) + "\n", capture_output=True, text=True, timeout=6000)
         cur = None; last = start - 1
         for line in p.stdout.split("\n"):
             if line.startswith("J "):
@@ -186,6 +186,14 @@ def explicit(e):
     f = e["line"].split(" ")
     return "%s %s %s %s" % (f[0], f[1], f[2], e["X"] if e["X"] and e["X"] != "-" else "-")
 
+def tlc_workers(share):
+    """workers for one of `share` concurrent TLC runs: a share of the cores when the machine is idle, few when it is crowded"""
+    try:
+        busy = os.getloadavg()[0] >= NCPU
+    except OSError:
+        busy = False
+    return 3 if busy else max(2, NCPU // share)
+
 # ------------------------------------------------------------------------------------------------ S: model checking
 def parse_cex(out):
     """TLC error trace -> (conf, schedule, parsed states)"""
@@ -217,15 +225,15 @@ def run_S(res, wd, tier):
     if os.environ.get("VERIF_C29_SKIP_S"):      # developer switch for mutation experiments: S does not depend on /repo
         fams = []
     if tier == "thorough" and fams:
-        fams += [("known", False, False), ("pairslt4", False, False), ("dup4", False, False), ("pairs4", False, False), ("twoone3", False, False), ("three3", False, False),
-                 ("threer4", False, False), ("twotwo3", False, False)]
+        fams += [("known", False, False), ("twotwo3", False, False), ("pairslt4", False, False), ("dup4", False, False), ("pairs4", False, False),
+                 ("twoone3", False, False), ("three3", False, False), ("threer4", False, False)]
     out = {v: {"ok": [], "violated": [], "states": 0} for v, _ in VARIANTS}
     tasks = [(fam, v, sfx, cov) for fam, cov, live in fams for v, sfx in VARIANTS]
     par = 2 if tier == "quick" else 2
     def one(t):
         fam, v, sfx, cov = t
         d = os.path.join(wd, "S_%s_%s" % (fam, sfx)); os.makedirs(d, exist_ok=True)
-        return t, model_check(d, fam, sfx, "12g", max(2, NCPU // par), cov, 2400 if tier == "thorough" else 420)
+        return t, model_check(d, fam, sfx, "12g", tlc_workers(par + 1), cov, 2600 if tier == "thorough" else 900)
     with cf.ThreadPoolExecutor(max_workers=par) as ex:
         results = list(ex.map(one, tasks))
     taken = {v: {} for v, _ in VARIANTS}
@@ -296,7 +304,7 @@ def dump_graph(wd, cfgfam, sfx):
     if cache and os.path.exists(os.path.join(cache, "%s_%s.dot" % (cfgfam, sfx))):
         return graphwalk.Graph(os.path.join(cache, "%s_%s.dot" % (cfgfam, sfx))), {"ok": True}
     r = tlc.run_tlc(os.path.join(SPEC, "MC_UnionFind_%s.tla" % cfgfam), os.path.join(SPEC, "MC_UnionFind_%s_%s.cfg" % (cfgfam, sfx)),
-                    d, timeout=1500, workers=max(2, NCPU // 2), heap="12g", extra=["-dump", "dot,actionlabels", dot])
+                    d, timeout=1500, workers=tlc_workers(4), heap="12g", extra=["-dump", "dot,actionlabels", dot])
     if not r["ok"]:
         return None, r
     return graphwalk.Graph(dot), r
@@ -340,7 +348,7 @@ def replay_variant(res, wd, drv, fam, v, sfx, max_walks, dumped):
     return execs, drift, len(walks), steps, first
 
 # ------------------------------------------------------------------------------------------------ T: trace validation
-def validate_histories(res, wd, execs, batch_events=40000, cap=None):
+def validate_histories(res, wd, execs, batch_events=25000, cap=None):
     """TLC judges every distinct history; returns {exec index: rejection record}"""
     uniq = {}
     for i, e in enumerate(execs):
@@ -348,11 +356,13 @@ def validate_histories(res, wd, execs, batch_events=40000, cap=None):
             uniq.setdefault("\n".join(e["V"]), []).append(i)
     hists = list(uniq.items())
     if cap and len(hists) > cap:
-        # keep every history of a replayed walk / counterexample / reproduction, sample the random and DFS ones
-        keep = [h for h in hists if any(not execs[i].get("src", "").startswith(("random", "dfs")) for i in h[1])]
-        rest = [h for h in hists if not any(not execs[i].get("src", "").startswith(("random", "dfs")) for i in h[1])]
-        random.Random(seed() * 13 + 5).shuffle(rest)
-        hists = keep + rest[:max(0, cap - len(keep))]
+        # keep every history of a counterexample / reproduction / replayed walk, then the systematic (DFS) ones, then sample the random ones
+        def prio(h):
+            src = {execs[i].get("src", "") for i in h[1]}
+            return 0 if any(not x.startswith(("random", "dfs")) for x in src) else 1 if "dfs" in src else 2
+        rnd = random.Random(seed() * 13 + 5)
+        order = sorted(hists, key=lambda h: (prio(h), rnd.random()))
+        hists = order[:cap]
         res.cov["distinct_histories_not_validated"] = len(uniq) - len(hists)
     batches = []; cur = []; cur_ids = []
     for uid, (txt, idx) in enumerate(hists):
@@ -428,8 +438,13 @@ def judge(res, wd, drv, execs, kf, label, cap=None):
         if bad:
             nv += 1
             if nv <= 5:
-                path = _save(wd, "rejected_%s_%d" % (label, i), [explicit(e) if e["X"] else e["line"]])
-                res.violations.append((bad, path))
+                path = _save(wd, "rejected_%s_%d" % (label, i), [explicit(e) if e["X"] and e["X"] != "-" else e["line"]])
+                # re-run once from the replay file: only a repeated failure is reported
+                again = run_driver(drv, [l.strip() for l in open(path) if l.strip()], procs=1)
+                if e["crash"] or e["livelock"] or (again and any(a["V"] == e["V"] for a in again)):
+                    res.violations.append((bad, path))
+                else:
+                    res.infra_errors.append("rejected history not reproduced from its replay file %s" % path)
     res.cov["traces_validated_against_impl"] += res.cov.get("executions_validated", 0)
     res.count("known_finding_hits", nk)
     return nk, nv, rejected
@@ -472,8 +487,9 @@ def run(tier, replay_path=None):
     if os.path.exists(rep):
         extra += [(l.strip(), "finding") for l in open(rep) if l.strip() and not l.startswith("#")]
     rng = random.Random(seed() * 1000003 + 29)
-    extra += [(j, "random") for j in random_jobs(rng, 10000 if quick else 400000)]
+    extra += [(j, "random") for j in random_jobs(rng, 4000 if quick else 100000)]
     extra += [(j, "dfs") for j in dfs_jobs(tier)]
+    random.Random(seed() + 17).shuffle(extra)       # spread the expensive (exhaustive DFS) jobs over the driver processes
     fut_extra = pool.submit(run_driver, drv, [j for j, _ in extra])
     # R: which variant does the real object follow?
     all_execs = []; conform = {}; labels = []
@@ -525,7 +541,7 @@ def run(tier, replay_path=None):
     res.cov["spec_results"] = {v: {"families_clean": [f[0] for f in S[v]["ok"]], "violated": [(f[0], f[1]) for f in S[v]["violated"]],
                                    "distinct_states": S[v]["states"]} for v, _ in VARIANTS}
     # T: the verdict
-    nk, nv, rejected = judge(res, wd, drv, all_execs, kf, "t", cap=5000 if quick else 150000)
+    nk, nv, rejected = judge(res, wd, drv, all_execs, kf, "t", cap=4000 if quick else 150000)
     tick("T done: %d executions, %d known-finding hits, %d violations" % (len(all_execs), nk, nv))
     # a counterexample of the variant the code follows must be reproduced by the code (else the spec misrepresents it)
     base = len(all_execs) - len(ex3)
